@@ -568,7 +568,7 @@ def random_steps(rng, n):
     for _ in range(n):
         r = rng.random()
         kind = rng.random()
-        flags = rng.choice([(), (), (), ("conn",), ("close",), ("hb",), ("ack",), ("rej",), ("conn", "ack"),
+        flags = rng.choice([(), (), (), ("conn",), ("close",), ("hb",), ("ack",), ("rej",), ("conn", "ack"), ("conn", "rej"), ("close", "rej"),
                             ("close", "ack"), ("hb", "ack"), ("ack", "rej")])
         optlen = 0
         if rng.random() < 0.4:
